@@ -27,6 +27,8 @@ def parseOp? (tok : String) : Option Op :=
   | "q" :: m :: rest => do pure (.query (← parseQ? rest) (← parseMode? m))
   | "cnt" :: m :: rest => do pure (.count (← parseQ? rest) (← parseMode? m))
   | "core" :: m :: rest => do pure (.core (← parseQ? rest) (← parseMode? m))
+  | "lq" :: m :: rest => do pure (.legacy (← parseQ? rest) (← parseMode? m))
+  | "lcnt" :: m :: rest => do pure (.legacyCount (← parseQ? rest) (← parseMode? m))
   | ["get", m, t, i] => do pure (.get (← parseKey? t i) (← parseMode? m))
   | ["kids", m, p] => do pure (.children (← p.toNat?) (← parseMode? m))
   | ["flush"] => some .flush
